@@ -84,6 +84,7 @@ public:
 
         for (Index i = from_k; i <= to_m - 1; i++)
         {
+            SPECTRA_VERIF_YIELD(1);
             // If beta = 0, then the next V is not full rank
             // We need to generate a new residual vector that is orthogonal
             // to the current V, which we call a restart
@@ -183,6 +184,7 @@ public:
 
         // Indicate that this is a step-m factorization
         m_k = to_m;
+        SPECTRA_VERIF_FAC_POINT(verif::FacExtended, m_fac_V.data(), m_n, m_k, m_fac_H.data(), m_m, m_fac_f.data(), &m_beta, &m_op);
     }
 
     // Apply H -> Q'HQ, where Q is from a tridiagonal QR decomposition
